@@ -178,6 +178,9 @@ class Report:
             if o.kind == 'param' and o.path:
                 for owner, fld in TYPESTATE_FIELDS:
                     if o.path[-1] == fld or (len(o.path) > 1 and o.path[-2] == fld):
+                        bad = self.typestate_broken(owner, fld)
+                        if bad:
+                            return 'open', None, 'TYPESTATE: Option field %s is not only assigned Some(..): %s; a hostile reply can leave it None' % (fld, bad)
                         return 'typestate', 'typestate', 'Option field %s set by client code only (API-order misuse, not server data)' % fld
         calls = [o.call for o in os_ if o.kind == 'call']
         names = [x.callee for x in calls]
@@ -703,9 +706,46 @@ class Report:
         return True
 
     # ---- hostility ------------------------------------------------------------------------------------------------------------
+    def typestate_broken(self, owner, fld):
+        """None if every store to owner.fld in the program is an Option aggregate built in place (Some(value) after the value was
+        obtained, or None in a constructor); else a description of the offending store (e.g. `= fallible().ok()`)"""
+        cache = self.__dict__.setdefault('_ts', {})
+        if (owner, fld) in cache:
+            return cache[(owner, fld)]
+        bad = None
+        for k, b in self.P.bodies.items():
+            for bi in range(b.n):
+                bl = b.blocks[bi]
+                if bl['cleanup']:
+                    continue
+                for stt in bl['stmts']:
+                    if stt['s'] != 'assign' or not stt['place']['p']:
+                        continue
+                    last = stt['place']['p'][-1]
+                    if last.get('k') == 'field' and last.get('name') == fld and last.get('owner') == owner:
+                        rv = stt['rv']
+                        ok = rv['rv'] == 'agg' and rv.get('adt') == 'std::option::Option'
+                        if not ok and rv['rv'] == 'use' and is_place_op(rv['op']) and not rv['op']['place']['p']:
+                            ds = b.defs.get(rv['op']['place']['l'], [])
+                            ok = len(ds) == 1 and ds[0][0] == 'stmt' and ds[0][3]['rv']['rv'] == 'agg' and ds[0][3]['rv'].get('adt') == 'std::option::Option'
+                            if not ok and len(ds) == 1 and ds[0][0] == 'call':
+                                bad = bad or '%s stores the result of %s (%s)' % (k, ds[0][2].callee, where(b, bi))
+                        if not ok and bad is None:
+                            bad = '%s stores a value that is not Some(..)/None built in place (%s)' % (k, where(b, bi))
+                t = bl['term']
+                if t['t'] == 'call' and t['dest']['p']:
+                    last = t['dest']['p'][-1]
+                    if last.get('k') == 'field' and last.get('name') == fld and last.get('owner') == owner:
+                        bad = bad or '%s stores the result of %s (%s)' % (k, t.get('resolved') or t.get('callee'), where(b, bi))
+        cache[(owner, fld)] = bad
+        return bad
+
     def hostile(self, site, depth=0):
         """does the failing condition of an open site depend on server-controlled data? (backward slices, through callers)"""
         body = site.body
+        if site.kind == 'unwrap' and site.detail.startswith('TYPESTATE:'):
+            site.why = 'typestate assumption broken'
+            return True
         if site.kind in ('panic', 'mapindex', 'loop'):
             site.why = 'reachable from server-triggered code'
             return True
